@@ -301,6 +301,9 @@ _ = (norm,)
 #     bound by signature, callee locals renamed apart, a single trailing `return e` turned into the assignment
 #   * `for x in filter(p, xs):` -> `for x in xs: if not p(x): continue`
 #   * `d = {k: v for x in xs [if c]}` and `d.update((k, v) for x in xs)` / `d.update({k: v for ...})` -> loop with `d[k] = v`
+#   * `yield a if c else b` / `xs.add(a if c else b)` (bare statement, conditional expression as the only operand) -> if/else of two statements
+#   * `for T in gen(...): BODY` over a repository generator of plain `yield v` statements (BODY without break/continue of its own)
+#     -> the generator body with `yield v` replaced by `T = v; BODY` (tuple targets bound element-wise, plain names substituted)
 #   * `if c: A; else: B` where a branch is a lone call statement is left alone (no control-flow rewriting)
 
 _INLINE_MAX_STMTS = 160
@@ -561,6 +564,40 @@ class _Normaliser:
                 return ast.fix_missing_locations(ast.copy_location(n, st))
             node = ast.If(test=ie.test, body=self.stmt(mk(ie.body), depth), orelse=self.stmt(mk(ie.orelse), depth))
             return [ast.fix_missing_locations(ast.copy_location(node, st))]
+        # `yield a if c else b`  /  `xs.add(a if c else b)` (a bare statement whose only operand is a conditional expression)
+        #   ->   if c: yield a; else: yield b   (the receiver of the call is a plain name/attribute chain: nothing is evaluated before c)
+        if isinstance(st, ast.Expr):
+            v0 = st.value
+            ie0: T.Optional[ast.IfExp] = None
+            if isinstance(v0, ast.Yield) and isinstance(v0.value, ast.IfExp):
+                ie0 = v0.value
+            elif isinstance(v0, ast.Call) and len(v0.args) == 1 and not v0.keywords and isinstance(v0.args[0], ast.IfExp) and attr_chain(v0.func) is not None:
+                ie0 = v0.args[0]
+            if ie0 is not None:
+                def mk0(v: ast.AST) -> ast.stmt:
+                    if isinstance(v0, ast.Yield):
+                        n0: ast.stmt = ast.Expr(value=ast.Yield(value=v))
+                    else:
+                        n0 = ast.Expr(value=ast.Call(func=_copy.deepcopy(v0.func), args=[v], keywords=[]))
+                    return ast.fix_missing_locations(ast.copy_location(n0, st))
+                node0 = ast.If(test=ie0.test, body=self.stmt(mk0(ie0.body), depth), orelse=self.stmt(mk0(ie0.orelse), depth))
+                return [ast.fix_missing_locations(ast.copy_location(node0, st))]
+        # for T in self._gen(...): BODY   where _gen is a repository generator of plain `yield v` statements and BODY has no
+        # break/continue/return of its own: the generator body with every `yield v` replaced by `T = v; BODY`
+        # (a tuple target over a tuple value is bound element by element; plain names are substituted)
+        if isinstance(st, ast.For) and isinstance(st.iter, ast.Call) and not st.orelse:
+            gc0 = self.callee(st.iter)
+            if gc0 is not None and gc0[2] not in self.stack and gc0[0].name not in ANCHOR_CALLS:
+                got0 = self._inline_for_generator(st, gc0[0], gc0[1])
+                if got0 is not None:
+                    self.stack.append(gc0[2])
+                    got0 = self.block(got0, depth)
+                    self.stack.pop()
+                    for n_ in got0:
+                        if not hasattr(n_, 'lineno'):
+                            ast.copy_location(n_, st)
+                        ast.fix_missing_locations(n_)
+                    return got0
         # x = list(self._gen(...)) / return list(self._gen(...)) where _gen is a generator of plain `yield v` statements:
         # the generator body with `yield v` -> `acc.append(v)`
         if depth > 0 and isinstance(st, (ast.Assign, ast.Return)) and isinstance(st.value, ast.Call) and isinstance(st.value.func, ast.Name) \
@@ -676,6 +713,116 @@ class _Normaliser:
         out = [ast.Assign(targets=[ast.Name(id=acc, ctx=ast.Store())], value=ast.List(elts=[], ctx=ast.Load()))] + pre
         out += [rn.visit(_Y().visit(s_)) for s_ in body]
         return out, acc
+
+    def _inline_for_generator(self, loop: ast.For, callee: FuncNode, is_method: bool) -> T.Optional[T.List[ast.stmt]]:
+        """`for T in gen(args): BODY` -> body of the generator `gen` with each `yield v` replaced by `T = v; BODY`."""
+        import copy as _copy
+        call = loop.iter
+        assert isinstance(call, ast.Call)
+        body = [s for s in callee.body if not (isinstance(s, ast.Expr) and isinstance(s.value, ast.Constant))]
+        ys = [n for st in body for n in walk_no_nested(st) if isinstance(n, (ast.Yield, ast.YieldFrom))]
+        if not ys or callee.args.vararg or callee.args.kwarg or callee.decorator_list:
+            return None
+        if _count_stmts(body) + len(ys) * _count_stmts(loop.body) > _INLINE_MAX_STMTS:
+            return None
+        stmt_yields = {id(st.value) for st0 in body for st in ast.walk(st0) if isinstance(st, ast.Expr) and isinstance(st.value, ast.Yield) and st.value.value is not None}
+        if any(isinstance(y, ast.YieldFrom) or id(y) not in stmt_yields for y in ys):
+            return None
+        if any(isinstance(n, ast.Return) for st in body for n in walk_no_nested(st)):
+            return None
+        if any(isinstance(n, (ast.FunctionDef, ast.AsyncFunctionDef, ast.ClassDef, ast.Global, ast.Nonlocal, ast.Try)) for st in body for n in ast.walk(st)):
+            return None
+        if any(isinstance(y, ast.Yield) for w in ast.walk(callee) if isinstance(w, (ast.With, ast.AsyncWith)) for y in ast.walk(w)):
+            return None             # a yield inside `with`: the consumer's body would run inside the context
+
+        def own_jumps(stmts: T.List[ast.stmt]) -> bool:
+            for s_ in stmts:
+                if isinstance(s_, (ast.Break, ast.Continue)):
+                    return True
+                if isinstance(s_, (ast.FunctionDef, ast.AsyncFunctionDef, ast.ClassDef)):
+                    continue
+                if isinstance(s_, (ast.For, ast.While, ast.AsyncFor)):
+                    if own_jumps(s_.orelse):      # jumps in the body of an inner loop are its own
+                        return True
+                    continue
+                for field in ('body', 'orelse', 'finalbody'):
+                    sub = getattr(s_, field, None)
+                    if isinstance(sub, list) and sub and isinstance(sub[0], ast.stmt) and own_jumps(sub):
+                        return True
+                for h in getattr(s_, 'handlers', []):
+                    if own_jumps(h.body):
+                        return True
+            return False
+        if own_jumps(loop.body):
+            return None             # `continue`/`break` of the consumer resume/abandon the generator: no statement-level equivalent
+        if is_method and not (isinstance(call.func, ast.Attribute) and attr_chain(call.func.value) == 'self'):
+            return None
+        try:
+            bound = bind_args(call, callee)
+        except Undecided:
+            return None
+        self.uid += 1
+        uid = self.uid
+        ps = params(callee) + [a.arg for a in callee.args.kwonlyargs]
+        pos = [a for a in callee.args.posonlyargs + callee.args.args if a.arg not in ('self', 'cls')]
+        defaults = dict(zip([a.arg for a in pos][len(pos) - len(callee.args.defaults):], callee.args.defaults))
+        defaults.update({a.arg: d for a, d in zip(callee.args.kwonlyargs, callee.args.kw_defaults) if d is not None})
+        if any(k not in ps for k in bound):
+            return None
+        body = [_copy.deepcopy(s) for s in body]
+        assigned = {n.id for st in body for n in ast.walk(st) if isinstance(n, ast.Name) and isinstance(n.ctx, (ast.Store, ast.Del))}
+        mapping: T.Dict[str, ast.AST] = {}
+        pre: T.List[ast.stmt] = []
+        for p_ in ps:
+            a = bound.get(p_, defaults.get(p_))
+            if a is None:
+                return None
+            if (isinstance(a, (ast.Name, ast.Constant)) or attr_chain(a) is not None) and p_ not in assigned:
+                mapping[p_] = a
+            else:
+                nm = f'{p_}__g{uid}'
+                pre.append(ast.Assign(targets=[ast.Name(id=nm, ctx=ast.Store())], value=_copy.deepcopy(a)))
+                mapping[p_] = ast.Name(id=nm, ctx=ast.Load())
+        for nm in assigned:
+            mapping.setdefault(nm, ast.Name(id=f'{nm}__g{uid}', ctx=ast.Load()))
+        rn = _Rename(mapping)
+        body = [rn.visit(s_) for s_ in body]
+        tgt = loop.target
+        consumer = loop.body
+        stored = {n.id for s_ in consumer for n in ast.walk(s_) if isinstance(n, ast.Name) and isinstance(n.ctx, (ast.Store, ast.Del))}
+
+        def simple(e: ast.AST) -> bool:
+            return isinstance(e, (ast.Name, ast.Constant)) or attr_chain(e) is not None
+
+        class _Y(ast.NodeTransformer):
+            def visit_Expr(self, n: ast.Expr) -> T.Any:
+                if not isinstance(n.value, ast.Yield):
+                    return n
+                v = n.value.value
+                assert v is not None
+                sub: T.Dict[str, ast.AST] = {}
+                binds: T.List[ast.stmt] = []
+                if isinstance(tgt, ast.Tuple) and isinstance(v, ast.Tuple) and len(tgt.elts) == len(v.elts) \
+                        and all(isinstance(t_, ast.Name) for t_ in tgt.elts) and not any(isinstance(e_, ast.Starred) for e_ in v.elts) \
+                        and all(simple(e_) for e_ in v.elts):
+                    # simple operands only: binding them one by one equals the simultaneous tuple assignment
+                    pairs = list(zip(tgt.elts, v.elts))
+                else:
+                    pairs = [(tgt, v)]
+                for t_, e_ in pairs:
+                    binds.append(ast.Assign(targets=[_copy.deepcopy(t_)], value=_copy.deepcopy(e_)))
+                    if isinstance(t_, ast.Name) and isinstance(e_, (ast.Name, ast.Constant)) and t_.id not in stored and not (isinstance(e_, ast.Name) and e_.id in stored):
+                        sub[t_.id] = e_
+                cons = [_Rename(sub).visit(_copy.deepcopy(s_)) for s_ in consumer]
+                outy = binds + cons
+                for s_ in outy:
+                    ast.fix_missing_locations(ast.copy_location(s_, n))
+                return outy
+        out: T.List[ast.stmt] = list(pre)
+        for s_ in body:
+            r_ = _Y().visit(s_)
+            out.extend(r_ if isinstance(r_, list) else [r_])
+        return out
 
     @staticmethod
     def _pair_loop(name: str, k: ast.AST, v: ast.AST, g: ast.comprehension) -> ast.For:
